@@ -666,32 +666,32 @@ func main() {
 		"wall_s":      wall,
 		"violations":  len(confirmed),
 		"coverage": map[string]interface{}{
-			"evaluations":                    agg.Runs,
-			"distinct_nontrivial":            distinct,
-			"rule":                           agg.Rule,
-			"samples":                        agg.Samples,
-			"nontrivial_runs":                agg.Nontrivial,
-			"distinct_event_logs":            len(scheds),
-			"scheduler_steps":                agg.Steps,
-			"simulated_time_seconds":         float64(agg.SimTimeNs) / 1e9,
-			"runs_per_hour":                  perHour,
-			"seeds_per_hour":                 perHour,
-			"faults_fired":                   faults,
-			"probes_hit":                     probes,
-			"other_counters":                 other,
-			"runs_per_strategy":              agg.Strategies,
-			"runs_per_gomaxprocs":            procRuns,
-			"determinism_seeds_compared":     detPairs,
-			"determinism_mismatches":         detMismatch,
-			"worker_processes":               nw,
-			"worker_restarts":                restarts.Load(),
-			"known_findings_observed":        agg.Known,
-			"components_real_code":           agg.RealCode,
-			"components_stubbed":             agg.Stubs,
-			"instrumentation":                instrRep,
-			"exhaustive":                     false,
-			"violation_replay_files":         confirmed,
-			"violations_seen_not_minimised":  agg.Counters["violations_not_minimised_duplicates"],
+			"evaluations":                   agg.Runs,
+			"distinct_nontrivial":           distinct,
+			"rule":                          agg.Rule,
+			"samples":                       agg.Samples,
+			"nontrivial_runs":               agg.Nontrivial,
+			"distinct_event_logs":           len(scheds),
+			"scheduler_steps":               agg.Steps,
+			"simulated_time_seconds":        float64(agg.SimTimeNs) / 1e9,
+			"runs_per_hour":                 perHour,
+			"seeds_per_hour":                perHour,
+			"faults_fired":                  faults,
+			"probes_hit":                    probes,
+			"other_counters":                other,
+			"runs_per_strategy":             agg.Strategies,
+			"runs_per_gomaxprocs":           procRuns,
+			"determinism_seeds_compared":    detPairs,
+			"determinism_mismatches":        detMismatch,
+			"worker_processes":              nw,
+			"worker_restarts":               restarts.Load(),
+			"known_findings_observed":       agg.Known,
+			"components_real_code":          agg.RealCode,
+			"components_stubbed":            agg.Stubs,
+			"instrumentation":               instrRep,
+			"exhaustive":                    false,
+			"violation_replay_files":        confirmed,
+			"violations_seen_not_minimised": agg.Counters["violations_not_minimised_duplicates"],
 		},
 		"assumptions": []string{
 			"interleavings are explored at statement granularity in instrumented functions; code between two yields runs atomically with respect to the scheduler",
